@@ -53,6 +53,7 @@ func KeepBounds(b *geom.Bounds) KeepFunc {
 			// For ways, keep anything that requires a node that we're already keeping.
 			w := object.(*osm.Way)
 			for _, n := range w.Nodes {
+				verifGate("keep", 'n', int64(n.ID))
 				if has, _ := o.hasNeedNode(n.ID); has {
 					return true
 				}
@@ -64,14 +65,17 @@ func KeepBounds(b *geom.Bounds) KeepFunc {
 			for _, m := range r.Members {
 				switch m.Type {
 				case osm.TypeNode:
+					verifGate("keep", 'n', m.Ref)
 					if has, _ := o.hasNeedNode(osm.NodeID(m.Ref)); has {
 						return true
 					}
 				case osm.TypeWay:
+					verifGate("keep", 'w', m.Ref)
 					if has, _ := o.hasNeedWay(osm.WayID(m.Ref)); has {
 						return true
 					}
 				case osm.TypeRelation:
+					verifGate("keep", 'r', m.Ref)
 					if has, _ := o.hasNeedRelation(osm.RelationID(m.Ref)); has {
 						return true
 					}
